@@ -36,7 +36,8 @@ EXPLANATION = (
     "(R5) in every function that attaches a comment string to an instance (AddP21Comment/PrependP21Comment of a local string) "
     "each ReadTokenSeparator call from which the attach is reachable passes the address of that string. "
     "(R2b) while the end of a comment is searched the lazy scanner neither skips \"strings\" nor recurses on a further \"/*\". (R3b) a data instance is entered into the loaded set before its attributes are read (reference cycles). (R4b) the work list of instanceDependencies only grows at its end unless the cursor is not advanced afterwards. (R6) every C library integer conversion in the reader libraries uses base 10. Not decided: equality of the index with the eager population, offsets, serialisation equality, complex instances."
-    " (R7) section and stream offset of an instance share one 64-bit word; the packing site (addLazyInstance) and the unpacking sites (loadInstance, typeFromFile, countDataSections) shift by the same constant K and mask with 2^K-1: writer and readers of the word agree on its layout.")
+    " (R7) section and stream offset of an instance share one 64-bit word; the packing site (addLazyInstance) and the unpacking sites (loadInstance, typeFromFile, countDataSections) shift by the same constant K and mask with 2^K-1: writer and readers of the word agree on its layout."
+    " (R8) the delimiter constant of every call of sectionReader::getDelimitedKeyword (or its default argument) covers what the eager reader accepts behind an entity keyword: `(`, every white-space character unless the delimiter test itself has an isspace() conjunct, and `/` as long as the scanner's comment branch runs only before the keyword starts.")
 
 TABLES = {"lazyInstMgr::_instanceTypes", "lazyInstMgr::_instanceStreamPos", "lazyInstMgr::_fwdInstanceRefs", "lazyInstMgr::_revInstanceRefs"}
 MUT = {"insert", "erase", "clear", "remove", "operator[]"}
@@ -536,7 +537,61 @@ def r7_packed_word(prog, res):
     res.floor("R7.packed_word_fields_agree", "pack / unpack sites of the position word", n, 3)
 
 
+def r8_keyword_delimiters(prog, res):
+    """The index scanner and the loader read an entity keyword with sectionReader::getDelimitedKeyword(delimiters), which sets failbit
+    (the section is given up) when the character behind the keyword is not one of `delimiters`.  The eager reader accepts, behind a
+    keyword, the parenthesis that opens the parameter list, white space, or a comment.  So the constant every call site passes (or
+    the default argument) must contain `(`, every white-space character unless the delimiter test itself accepts isspace() - and `/` as long as the scanner's own comment branch only runs before the
+    keyword has started (then a comment directly behind the keyword reaches the delimiter test)."""
+    g = next((x for x in prog.all_functions() if x.name == "sectionReader::getDelimitedKeyword" and x.cfg is not None), None)
+    if g is None:
+        res.broke("anchor vanished: sectionReader::getDelimitedKeyword")
+        return
+    # is the comment branch restricted to an empty keyword?
+    restricted = None
+    for i_ in g.walk():
+        if i_["k"] != "If" or not i_.get("ch"):
+            continue
+        vals = {y.get("val") for y in walk(i_["ch"][0]) if "val" in y}
+        if 47 in vals and 42 in vals:      # c == '/' && peek() == '*'
+            restricted = any(y["k"] == "Call" and (y.get("fn") or "").rsplit("::", 1)[-1] in ("length", "size", "empty") for y in walk(i_["ch"][0]))
+    need = {"(": "opens the parameter list"}
+    # white space: accepted by the delimiter test itself (an isspace() conjunct next to the strchr() test) or by every constant
+    ws_in_test = False
+    for i_ in g.walk():
+        if i_["k"] == "If" and i_.get("ch") and any(y["k"] == "Call" and (y.get("fn") or "") == "strchr" for y in walk(i_["ch"][0])):
+            ws_in_test = any(y["k"] == "Call" and (y.get("fn") or "") == "isspace" for y in walk(i_["ch"][0])) or \
+                any((y.get("mo") or y.get("m") or "") == "isspace" for y in walk(i_["ch"][0]))
+    if not ws_in_test:
+        for ch_, nm_ in ((" ", "a blank"), ("\t", "a tab"), ("\n", "a line break"), ("\r", "a carriage return")):
+            need[ch_] = nm_ + " behind the keyword (white space; the eager reader skips it)"
+    if restricted is None or restricted:
+        need["/"] = "a comment directly behind the keyword (the scanner skips comments only before the keyword starts)"
+    n = 0
+    for f in prog.all_functions():
+        if f.component == "test":
+            continue
+        for c in f.calls():
+            if (c.get("fn") or "") != "sectionReader::getDelimitedKeyword":
+                continue
+            a = call_args(c)
+            s0 = next((y for y in walk(a[-1]) if y["k"] == "Str"), None) if a else None
+            n += 1
+            if s0 is None:
+                res.add("R8.keyword_delimiters_cover_followers", "R8|%s|%s|%s" % (f.relfile(), f.name, n), f.where(c), False,
+                        "the delimiter set of this call is not a string constant: cannot be compared with what may follow a keyword")
+                continue
+            text = s0.get("s") or ""
+            miss = [k for k in need if k not in text]
+            res.add("R8.keyword_delimiters_cover_followers", "R8|%s|%s|%s" % (f.relfile(), f.name, c["l"]), f.where(c), not miss,
+                    "delimiters %r%s cover `(`, white space%s" % (text, " with the isspace() test" if ws_in_test else "", " and `/`" if "/" in need else "") if not miss else
+                    "delimiters %r lack %s: the lazy loader gives the whole data section up at an instance the eager reader accepts "
+                    "(`#30=CARTESIAN_POINT/* c */(...)`)" % (text, ", ".join("%r (%s)" % (k, need[k]) for k in miss)))
+    res.floor("R8.keyword_delimiters_cover_followers", "calls of getDelimitedKeyword", n, 4)
+
+
 def run(prog, res, tier):
+    r8_keyword_delimiters(prog, res)
     r1_index(prog, res)
     r2_scanner(prog, res)
     r3_cache(prog, res)
